@@ -1,22 +1,390 @@
-"""Translator for C23: the shape and every literal of `androguard/decompiler/writer.py: string()` (and the shape of
-the `str` branch of `Writer.visit_constant`), read from the repository source by AST (nothing is imported).
+"""Translator for C23 (also run by C04): `androguard/decompiler/writer.py: string()` read SEMANTICALLY from the
+repository source by AST (androguard is not imported), plus the shape of the `str` branch of `Writer.visit_constant`.
 
-Model/JavaString.lean is a hand transliteration of ONE algorithm: a per-character loop that appends, for each
-character, either the character (with a backslash before ' " \\), the codec name of \\r \\n \\t, or one `\\u` escape per
-UTF-16 unit written with four `'%x'` nibbles; the pieces are joined with '' and nothing runs over the joined result.
-The shape of the function (its AST with the literals blanked out) is compared with the shape the model was written
-for: a rewrite to a different algorithm (table translate, codec, regex post-pass ...) is an unrecognised shape and is
-reported as a broken obligation — the theorems then say nothing about the code, and the search must decide.
-Every literal (bounds, quote characters, named escapes, surrogate constants, shifts and masks, prefixes) goes to
-AgVerif.Gen.JString, which the model uses, so the theorems are re-checked against the literals the code has now.
+Model/JavaString.lean describes ONE function: OPEN ++ concat (escChar c | c in s) ++ CLOSE, where escChar is a pure
+function of the code point. The translator accepts any source text of `string()` for which it can PROVE, by local
+reasoning plus a complete finite evaluation, that it is that function:
+
+  1. frame (syntactic, up to renaming of locals):  ACC = [OPEN] ; for V in <the parameter>: BODY ; ACC.append(CLOSE) ;
+     return ''.join(ACC)      — nothing runs over the joined result, no other statement;
+  2. BODY is a pure per-character step: the accumulator occurs only as the receiver of statement-level
+     `.append(x)` / `.extend(xs)`; the parameter is not read; no `break`/`return`/`while`/`try`/comprehension/lambda;
+     every local read is definitely assigned earlier in the SAME iteration (path-sensitive definite-assignment
+     analysis: `elif` chains, `if … continue` chains and `if a and b` are all handled by what they mean) so no state
+     is carried between characters; only pure builtins (ord chr divmod len int hex format str tuple list range
+     min max), pure str/bytes/dict methods (encode decode format join get lower upper zfill rjust), module-level
+     literal constants that are assigned once and never mutated in the module, and private module-level helper
+     functions that satisfy the same purity rules (followed transitively, no recursion);
+  3. BODY (with its helpers and constants, compiled from the AST in an empty namespace) is EVALUATED ON EVERY ONE OF
+     THE 0x110000 CODE POINTS and must return exactly what the model's escChar returns (`model_esc_char` below, the
+     mirror of Model/JavaString.lean with the pinned literals; harness/props/c23.py compares the mirror with the
+     compiled Lean model). The domain is finite and complete, so agreement IS equality of the two functions; the
+     frame then gives equality for all strings. OPEN/CLOSE must be the model's. As a belt-and-braces check the whole
+     function is also run on a few hundred multi-character strings.
+
+Accepted therefore: renamed locals, `elif` <-> `if … continue`, merged/split conditions, swapped branches,
+`append` x5 <-> `extend`, extracted helpers and hoisted tables, `'\\u%04x'` <-> four `'%x'` nibbles, divmod <-> shift/mask,
+a dict of short escapes <-> the codec — anything that leaves the per-character function unchanged.
+Refused (ValueError = broken obligation; the search must then decide): any other frame (table translate, codec over
+the whole string, regex or any pass over the joined result), impure or stateful loop bodies, and any per-character
+function that differs from the model's on even one code point (the message names the first such code point).
+When accepted, AgVerif.Gen.JString is emitted with the literals the model and its proofs were written for.
 """
 import ast
 import os
 
-from gen.typedesc import _func, _literals, lnat
+from gen.typedesc import _func, _literals
 
-STRING_SHAPE = "3e7df50e977f3f5d"
 VISIT_SHAPE = "0643425e2d2c385d"
+
+# ---------------------------------------------------------------------------------------------------------------
+# the literals the Lean model was written for, and the model's per-character function (mirror of Model/JavaString.lean)
+PINNED = dict(openQuote=[34], closeQuote=[34], printLo=32, printHi=127, quote1=39, quote2=34, quote3=92, escPrefix=[92],
+              asciiHi=127, named=[13, 10, 9], suppMin=65536, suppSub=65536, hiBase=55296, hiShift=10, loBase=56320,
+              loMask=1023, uPrefix=[92, 117], shift1=12, shift2=8, mask2=15, shift3=4, mask3=15, mask4=15)
+_NAMED = {9: "\\t", 10: "\\n", 13: "\\r"}
+
+
+def _hexdigits(n):           # Model.hexDigits = Python '%x' % n
+    s = ""
+    while True:
+        d = n % 16
+        s = "0123456789abcdef"[d] + s
+        n //= 16
+        if n == 0:
+            return s
+
+
+def _uescape(i, P=PINNED):
+    return ("".join(map(chr, P["uPrefix"])) + _hexdigits(i >> P["shift1"]) + _hexdigits((i >> P["shift2"]) & P["mask2"])
+            + _hexdigits((i >> P["shift3"]) & P["mask3"]) + _hexdigits(i & P["mask4"]))
+
+
+def model_esc_char(c, P=PINNED):
+    """Model/JavaString.lean escChar on one code point, as a str"""
+    if P["printLo"] <= c < P["printHi"]:
+        if c == P["quote1"] or c == P["quote2"] or c == P["quote3"]:
+            return "".join(map(chr, P["escPrefix"])) + chr(c)
+        return chr(c)
+    if c <= P["asciiHi"] and c in P["named"]:
+        return _NAMED[c]                                  # pyUnicodeEscape on \t \n \r
+    if c >= P["suppMin"]:
+        j = c - P["suppSub"]
+        units = [P["hiBase"] + (j >> P["hiShift"]), P["loBase"] + (j & P["loMask"])]
+    else:
+        units = [c]
+    return "".join(_uescape(u) for u in units)
+
+
+def model_string(s):
+    return '"' + "".join(model_esc_char(ord(c)) for c in s) + '"'
+
+
+# ---------------------------------------------------------------------------------------------------------------
+class Refuse(ValueError):
+    pass
+
+
+PURE_BUILTINS = {"ord": ord, "chr": chr, "divmod": divmod, "len": len, "int": int, "hex": hex, "format": format, "str": str,
+                 "tuple": tuple, "list": list, "range": range, "min": min, "max": max}
+PURE_METHODS = {"encode", "decode", "format", "join", "get", "lower", "upper", "zfill", "rjust"}
+MUTATORS = {"append", "extend", "insert", "remove", "pop", "clear", "update", "setdefault", "popitem", "sort", "reverse",
+            "add", "discard", "__setitem__", "__delitem__"}
+BAD_NODES = (ast.Global, ast.Nonlocal, ast.Import, ast.ImportFrom, ast.Lambda, ast.FunctionDef, ast.AsyncFunctionDef,
+             ast.ClassDef, ast.Yield, ast.YieldFrom, ast.Await, ast.Try, ast.With, ast.AsyncWith, ast.Delete, ast.While,
+             ast.NamedExpr, ast.ListComp, ast.SetComp, ast.DictComp, ast.GeneratorExp, ast.AsyncFor, ast.Starred)
+
+
+def _strip_doc(body):
+    if body and isinstance(body[0], ast.Expr) and isinstance(getattr(body[0], "value", None), ast.Constant) \
+            and isinstance(body[0].value.value, str):
+        return body[1:]
+    return body
+
+
+class Purity:
+    """definite-assignment + purity analysis of a statement block (see the module docstring, point 2)"""
+
+    def __init__(self, module, acc=None):
+        self.module = module
+        self.acc = acc                      # accumulator name (main loop body) or None (helper)
+        self.consts = {}                    # module constants used: name -> value
+        self.helpers = {}                   # helper functions used: name -> FunctionDef
+        self.fresh_lists = set()
+
+    # ---- module-level facts
+    def module_const(self, name):
+        if name in self.consts:
+            return True
+        defs = [n for n in self.module.body if isinstance(n, ast.Assign) and len(n.targets) == 1
+                and isinstance(n.targets[0], ast.Name) and n.targets[0].id == name]
+        if len(defs) != 1:
+            return False
+        try:
+            val = ast.literal_eval(defs[0].value)
+        except Exception:
+            return False
+        stores = 0
+        for n in ast.walk(self.module):
+            if isinstance(n, ast.Name) and n.id == name and isinstance(n.ctx, (ast.Store, ast.Del)):
+                stores += 1
+            if isinstance(n, ast.Subscript) and isinstance(n.value, ast.Name) and n.value.id == name \
+                    and isinstance(n.ctx, (ast.Store, ast.Del)):
+                raise Refuse(f"module constant {name} is modified by subscript assignment")
+            if isinstance(n, ast.AugAssign) and isinstance(n.target, ast.Name) and n.target.id == name:
+                raise Refuse(f"module constant {name} is modified by augmented assignment")
+            if isinstance(n, ast.Call) and isinstance(n.func, ast.Attribute) and isinstance(n.func.value, ast.Name) \
+                    and n.func.value.id == name and n.func.attr in MUTATORS:
+                raise Refuse(f"module constant {name} is modified by .{n.func.attr}()")
+            if isinstance(n, (ast.Global,)) and name in n.names:
+                raise Refuse(f"module constant {name} is declared global in a function")
+        if stores != 1:
+            return False
+        self.consts[name] = val
+        return True
+
+    def helper(self, name, stack):
+        if name in self.helpers:
+            return True
+        defs = [n for n in self.module.body if isinstance(n, ast.FunctionDef) and n.name == name]
+        if len(defs) != 1:
+            return False
+        if name in stack:
+            raise Refuse(f"helper {name} is recursive")
+        if len(stack) > 4:
+            raise Refuse("helper calls nested too deeply")
+        fn = defs[0]
+        a = fn.args
+        if a.vararg or a.kwarg or a.kwonlyargs or a.posonlyargs or a.defaults or fn.decorator_list:
+            raise Refuse(f"helper {name}: only plain positional parameters are followed")
+        sub = Purity(self.module, None)
+        sub.consts, sub.helpers = self.consts, self.helpers
+        sub.block(_strip_doc(fn.body), {x.arg for x in a.args}, 0, stack + [name], in_helper=True)
+        self.helpers[name] = fn
+        return True
+
+    # ---- expressions
+    def expr(self, node, assigned, stack):
+        for n in ast.walk(node):
+            if isinstance(n, BAD_NODES):
+                raise Refuse(f"line {getattr(n, 'lineno', '?')}: {type(n).__name__} is not followed")
+            if isinstance(n, ast.Name):
+                if not isinstance(n.ctx, ast.Load):
+                    raise Refuse(f"line {n.lineno}: assignment inside an expression")
+                if n.id == self.acc:
+                    raise Refuse(f"line {n.lineno}: the accumulator {n.id} is read inside the loop body")
+                if n.id in assigned:
+                    continue
+                if n.id in PURE_BUILTINS and not self._shadowed(n.id):
+                    continue
+                if self.module_const(n.id) or self.helper(n.id, stack):
+                    continue
+                raise Refuse(f"line {n.lineno}: name {n.id} is not a local assigned earlier in the same iteration, a pure "
+                             f"builtin, a literal module constant or a private helper")
+            if isinstance(n, ast.Attribute):
+                if n.attr not in PURE_METHODS:
+                    raise Refuse(f"line {n.lineno}: attribute .{n.attr} is not a known pure method")
+            if isinstance(n, ast.Call):
+                f = n.func
+                if isinstance(f, ast.Name):
+                    if not ((f.id in PURE_BUILTINS and not self._shadowed(f.id)) or self.helper(f.id, stack)):
+                        raise Refuse(f"line {n.lineno}: call of {f.id} is not followed")
+                elif not isinstance(f, ast.Attribute):
+                    raise Refuse(f"line {n.lineno}: computed call target")
+                if n.keywords:
+                    raise Refuse(f"line {n.lineno}: keyword arguments are not followed")
+        # every Attribute must be the function of a Call (no bound-method values)
+        called = {id(c.func) for c in ast.walk(node) if isinstance(c, ast.Call)}
+        for n in ast.walk(node):
+            if isinstance(n, ast.Attribute) and id(n) not in called:
+                raise Refuse(f"line {n.lineno}: attribute value .{n.attr} used without calling it")
+
+    def _shadowed(self, name):
+        return any(isinstance(n, (ast.FunctionDef, ast.ClassDef)) and n.name == name for n in self.module.body) or any(
+            isinstance(n, ast.Assign) and any(isinstance(t, ast.Name) and t.id == name for t in n.targets) for n in self.module.body)
+
+    # ---- statements; returns (definitely assigned after, falls through)
+    def block(self, stmts, assigned, depth, stack, in_helper=False):
+        assigned = set(assigned)
+        for st in stmts:
+            if isinstance(st, BAD_NODES):
+                raise Refuse(f"line {st.lineno}: {type(st).__name__} is not followed")
+            if isinstance(st, ast.Pass):
+                continue
+            if isinstance(st, ast.Expr):
+                c = st.value
+                if isinstance(c, ast.Call) and isinstance(c.func, ast.Attribute) and isinstance(c.func.value, ast.Name) \
+                        and c.func.attr in ("append", "extend") and not c.keywords and len(c.args) == 1:
+                    recv = c.func.value.id
+                    if recv == self.acc or (recv in self.fresh_lists and recv in assigned):
+                        self.expr(c.args[0], assigned, stack)
+                        continue
+                    raise Refuse(f"line {st.lineno}: .{c.func.attr}() on {recv}, which is neither the accumulator nor a fresh local list")
+                if isinstance(c, ast.Constant):
+                    continue
+                raise Refuse(f"line {st.lineno}: expression statement with possible side effects")
+            if isinstance(st, ast.Assign):
+                self.expr(st.value, assigned, stack)
+                for t in st.targets:
+                    names = [t] if isinstance(t, ast.Name) else list(t.elts) if isinstance(t, (ast.Tuple, ast.List)) else None
+                    if names is None or not all(isinstance(x, ast.Name) for x in names):
+                        raise Refuse(f"line {st.lineno}: assignment to something other than local names")
+                    for x in names:
+                        if x.id == self.acc:
+                            raise Refuse(f"line {st.lineno}: the accumulator is reassigned inside the loop")
+                        if x.id in self.consts or x.id in self.helpers or x.id in PURE_BUILTINS:
+                            raise Refuse(f"line {st.lineno}: local {x.id} shadows a global that is used")
+                        assigned.add(x.id)
+                        if isinstance(t, ast.Name) and isinstance(st.value, ast.List):
+                            self.fresh_lists.add(x.id)
+                        else:
+                            self.fresh_lists.discard(x.id)
+                continue
+            if isinstance(st, ast.AugAssign):
+                if not isinstance(st.target, ast.Name) or st.target.id not in assigned or st.target.id == self.acc:
+                    raise Refuse(f"line {st.lineno}: augmented assignment to a name not assigned earlier in the same iteration")
+                self.expr(st.value, assigned, stack)
+                self.fresh_lists.discard(st.target.id)
+                continue
+            if isinstance(st, ast.If):
+                self.expr(st.test, assigned, stack)
+                a1, f1 = self.block(st.body, assigned, depth, stack, in_helper)
+                a2, f2 = self.block(st.orelse, assigned, depth, stack, in_helper)
+                if f1 and f2:
+                    assigned = a1 & a2
+                elif f1:
+                    assigned = a1
+                elif f2:
+                    assigned = a2
+                else:
+                    return assigned, False
+                continue
+            if isinstance(st, ast.For):
+                if st.orelse:
+                    raise Refuse(f"line {st.lineno}: for … else is not followed")
+                self.expr(st.iter, assigned, stack)
+                t = st.target
+                names = [t] if isinstance(t, ast.Name) else list(t.elts) if isinstance(t, ast.Tuple) else None
+                if names is None or not all(isinstance(x, ast.Name) for x in names):
+                    raise Refuse(f"line {st.lineno}: loop target is not a local name")
+                if any(x.id == self.acc for x in names):
+                    raise Refuse(f"line {st.lineno}: the accumulator is a loop target")
+                self.block(st.body, assigned | {x.id for x in names}, depth + 1, stack, in_helper)
+                continue                                    # the body may not run: nothing new is definitely assigned
+            if isinstance(st, ast.Continue):
+                return assigned, False
+            if isinstance(st, ast.Break):
+                if depth == 0:
+                    raise Refuse(f"line {st.lineno}: `break` in the per-character loop (later characters would be dropped)")
+                return assigned, False
+            if isinstance(st, ast.Return):
+                if not in_helper:
+                    raise Refuse(f"line {st.lineno}: `return` inside the per-character loop")
+                if st.value is not None:
+                    self.expr(st.value, assigned, stack)
+                return assigned, False
+            if isinstance(st, ast.Raise):
+                if st.exc is not None:
+                    raise Refuse(f"line {st.lineno}: raise with a computed exception is not followed")
+                return assigned, False
+            raise Refuse(f"line {st.lineno}: {type(st).__name__} is not followed")
+        return assigned, True
+
+
+def _const_str(node):
+    return node.value if isinstance(node, ast.Constant) and isinstance(node.value, str) else None
+
+
+def read_frame(fn):
+    """-> (param, acc, loopvar, OPEN, CLOSE, loop body) or Refuse"""
+    a = fn.args
+    if len(a.args) != 1 or a.vararg or a.kwarg or a.kwonlyargs or a.posonlyargs or a.defaults or fn.decorator_list:
+        raise Refuse("string() is expected to take exactly one plain parameter")
+    param = a.args[0].arg
+    body = _strip_doc(fn.body)
+    if len(body) != 4:
+        raise Refuse(f"string() has {len(body)} top-level statements; the modelled frame is ACC = [OPEN]; for c in s: …; "
+                     f"ACC.append(CLOSE); return ''.join(ACC)")
+    s0, s1, s2, s3 = body
+    if not (isinstance(s0, ast.Assign) and len(s0.targets) == 1 and isinstance(s0.targets[0], ast.Name)
+            and isinstance(s0.value, ast.List) and len(s0.value.elts) == 1 and _const_str(s0.value.elts[0]) is not None):
+        raise Refuse("first statement is not ACC = [<string literal>]")
+    acc, op = s0.targets[0].id, _const_str(s0.value.elts[0])
+    if not (isinstance(s1, ast.For) and not s1.orelse and isinstance(s1.target, ast.Name) and isinstance(s1.iter, ast.Name)
+            and s1.iter.id == param):
+        raise Refuse("second statement is not `for c in <parameter>:` (a per-character loop over the argument)")
+    v = s1.target.id
+    if not (isinstance(s2, ast.Expr) and isinstance(s2.value, ast.Call) and isinstance(s2.value.func, ast.Attribute)
+            and s2.value.func.attr == "append" and isinstance(s2.value.func.value, ast.Name) and s2.value.func.value.id == acc
+            and len(s2.value.args) == 1 and not s2.value.keywords and _const_str(s2.value.args[0]) is not None):
+        raise Refuse("third statement is not ACC.append(<string literal>)")
+    cl = _const_str(s2.value.args[0])
+    if not (isinstance(s3, ast.Return) and isinstance(s3.value, ast.Call) and isinstance(s3.value.func, ast.Attribute)
+            and s3.value.func.attr == "join" and _const_str(s3.value.func.value) == "" and len(s3.value.args) == 1
+            and not s3.value.keywords and isinstance(s3.value.args[0], ast.Name) and s3.value.args[0].id == acc):
+        raise Refuse("last statement is not return ''.join(ACC): something runs over the joined result")
+    if len({param, acc, v}) != 3:
+        raise Refuse("parameter, accumulator and loop variable are not three distinct names")
+    return param, acc, v, op, cl, s1.body
+
+
+_CACHE = {}
+
+
+def accept(module):
+    """Refuse unless writer.string is provably the model's function (module docstring). Returns a short description."""
+    fn = _func(module, "string")
+    param, acc, v, op, cl, body = read_frame(fn)
+    if [ord(c) for c in op] != PINNED["openQuote"] or [ord(c) for c in cl] != PINNED["closeQuote"]:
+        raise Refuse(f"opening/closing pieces are {op!r}/{cl!r}, the model has a double quote on both sides")
+    pur = Purity(module, acc)
+    for n in ast.walk(ast.Module(body=body, type_ignores=[])):
+        if isinstance(n, ast.Name) and n.id == param:
+            raise Refuse(f"line {n.lineno}: the whole argument {param} is read inside the per-character loop")
+    pur.block(body, {v}, 0, ["string"])
+    # ---- compile body + helpers + constants in an empty namespace
+    key = ast.dump(fn) + "|" + "|".join(ast.dump(h) for h in pur.helpers.values()) + "|" + repr(sorted(pur.consts.items(), key=repr))
+    if key in _CACHE:
+        return _CACHE[key]
+    loop = ast.For(target=ast.Name(id=v, ctx=ast.Store()), iter=ast.Tuple(elts=[ast.Name(id=v, ctx=ast.Load())], ctx=ast.Load()),
+                   body=body, orelse=[])
+    per_char = ast.FunctionDef(
+        name="__per_char", args=ast.arguments(posonlyargs=[], args=[ast.arg(arg=v)], kwonlyargs=[], kw_defaults=[], defaults=[]),
+        body=[ast.Assign(targets=[ast.Name(id=acc, ctx=ast.Store())], value=ast.List(elts=[], ctx=ast.Load())), loop,
+              ast.Return(value=ast.Call(func=ast.Attribute(value=ast.Constant(value=""), attr="join", ctx=ast.Load()),
+                                        args=[ast.Name(id=acc, ctx=ast.Load())], keywords=[]))],
+        decorator_list=[])
+    mod = ast.Module(body=list(pur.helpers.values()) + [per_char, fn], type_ignores=[])
+    ast.fix_missing_locations(mod)
+    ns = {"__builtins__": dict(PURE_BUILTINS)}
+    ns.update(pur.consts)
+    exec(compile(mod, "<writer.string from the repository>", "exec"), ns)
+    f, whole = ns["__per_char"], ns["string"]
+    # ---- complete finite domain: every code point
+    for cp in range(0x110000):
+        try:
+            got = f(chr(cp))
+        except Exception as e:  # noqa
+            raise Refuse(f"the loop body raises {type(e).__name__} on U+{cp:04X}")
+        if got != model_esc_char(cp):
+            raise Refuse(f"per-character function differs from the model's escChar at U+{cp:04X}: code appends {got!r}, "
+                         f"model {model_esc_char(cp)!r}")
+    # ---- belt and braces: the whole function on multi-character strings
+    probes = ["", "\\", "\\u", "\\U0001f600", "a\"b'c\\", "\r\n\t\x00\x7f", "😀", "\ude00\ud83d", "\U0001F600\\u0041",
+              "\\" * 5 + "u0041", "\U0010FFFF\U00010000￿"]
+    probes += ["".join(chr((i * 7919 + j * 104729) % 0x110000) for j in range(i % 7)) + "\\U%08x" % (i * 37) for i in range(300)]
+    for p in probes:
+        try:
+            got = whole(p)
+        except Exception as e:  # noqa
+            raise Refuse(f"string() raises {type(e).__name__} on {p!r}")
+        if got != model_string(p):
+            raise Refuse(f"string({p!r}) = {got!r}, the model gives {model_string(p)!r}")
+    desc = (f"per-character loop over {param} (accumulator {acc}, loop variable {v}); helpers followed: "
+            f"{sorted(pur.helpers) or 'none'}; module constants used: {sorted(pur.consts) or 'none'}; equal to the model's "
+            f"escChar on all 0x110000 code points")
+    _CACHE[key] = desc
+    return desc
 
 
 def _method(tree, cls, name):
@@ -28,65 +396,26 @@ def _method(tree, cls, name):
 
 def shapes(repo):
     t = ast.parse(open(os.path.join(repo, "androguard/decompiler/writer.py")).read())
-    return _literals(_func(t, "string"))[1], _literals(_method(t, "Writer", "visit_constant"))[1]
-
-
-
-def cp(s, what):
-    if not (isinstance(s, str) and len(s) == 1):
-        raise ValueError(f"{what}: expected a one-character string, found {s!r}")
-    return str(ord(s))
-
-
-def cps(s, what):
-    if not isinstance(s, str):
-        raise ValueError(f"{what}: expected a string literal, found {s!r}")
-    return "[" + ", ".join(str(ord(c)) for c in s) + "]"
+    return _literals(_method(t, "Writer", "visit_constant"))[1]
 
 
 def generate(repo):
     t = ast.parse(open(os.path.join(repo, "androguard/decompiler/writer.py")).read())
-    lits, sh = _literals(_func(t, "string"))
     vl, vsh = _literals(_method(t, "Writer", "visit_constant"))
-    if sh != STRING_SHAPE:
-        raise ValueError(f"writer.string has a different shape ({sh}, literals {lits!r}) from the per-character loop "
-                         f"modelled in Model/JavaString.lean ({STRING_SHAPE}): the hand-written model does not describe this code")
     if vsh != VISIT_SHAPE:
         raise ValueError(f"Writer.visit_constant has a different shape ({vsh}, literals {vl!r}) from the one modelled "
                          f"({VISIT_SHAPE})")
-    (l_open, l_lo, l_hi, l_q1, l_q2, l_q3, l_bs, l_ahi, l_n1, l_n2, l_n3, l_codec, l_ascii, l_smin, l_ssub, l_hb, l_hs,
-     l_lb, l_lm, l_u, f1, s1, f2, s2, m2, f3, s3, m3, f4, m4, l_close, l_join) = lits
-    for f in (f1, f2, f3, f4):
-        if f != "%x":
-            raise ValueError(f"nibble format is {f!r}, the model (hexDigits) is '%x'")
-    if l_codec != "unicode-escape" or l_ascii != "ascii":
-        raise ValueError(f"named escapes go through {l_codec!r}/{l_ascii!r}, the model (pyUnicodeEscape) is unicode-escape/ascii")
-    if l_join != "":
-        raise ValueError(f"pieces are joined with {l_join!r}, the model concatenates")
-    L = ["/- GENERATED by gen/jstring.py from androguard/decompiler/writer.py string() — do not edit. -/",
-         "namespace AgVerif.Gen.JString", "",
-         f"def openQuote : List Nat := {cps(l_open, 'opening quote')}",
-         f"def closeQuote : List Nat := {cps(l_close, 'closing quote')}",
-         f"def printLo : Nat := {cp(l_lo, 'lower bound of the printable range')}",
-         f"def printHi : Nat := {cp(l_hi, 'upper bound of the printable range')}",
-         f"def quote1 : Nat := {cp(l_q1, 'escaped character 1')}",
-         f"def quote2 : Nat := {cp(l_q2, 'escaped character 2')}",
-         f"def quote3 : Nat := {cp(l_q3, 'escaped character 3')}",
-         f"def escPrefix : List Nat := {cps(l_bs, 'prefix of an escaped printable character')}",
-         f"def asciiHi : Nat := {cp(l_ahi, 'upper bound of the named-escape test')}",
-         f"def named : List Nat := [{cp(l_n1, 'named 1')}, {cp(l_n2, 'named 2')}, {cp(l_n3, 'named 3')}]",
-         f"def suppMin : Nat := {lnat(l_smin, 'supplementary test')}",
-         f"def suppSub : Nat := {lnat(l_ssub, 'supplementary offset')}",
-         f"def hiBase : Nat := {lnat(l_hb, 'high surrogate base')}",
-         f"def hiShift : Nat := {lnat(l_hs, 'high surrogate shift')}",
-         f"def loBase : Nat := {lnat(l_lb, 'low surrogate base')}",
-         f"def loMask : Nat := {lnat(l_lm, 'low surrogate mask')}",
-         f"def uPrefix : List Nat := {cps(l_u, 'unicode escape prefix')}",
-         f"def shift1 : Nat := {lnat(s1, 'first nibble shift')}",
-         f"def shift2 : Nat := {lnat(s2, 'second nibble shift')}",
-         f"def mask2 : Nat := {lnat(m2, 'second nibble mask')}",
-         f"def shift3 : Nat := {lnat(s3, 'third nibble shift')}",
-         f"def mask3 : Nat := {lnat(m3, 'third nibble mask')}",
-         f"def mask4 : Nat := {lnat(m4, 'fourth nibble mask')}",
-         "", "end AgVerif.Gen.JString"]
+    try:
+        accept(t)
+    except Refuse as e:
+        raise ValueError("writer.string is not recognisably the per-character escaper modelled in Model/JavaString.lean "
+                         "(the hand-written model does not describe this code): " + str(e))
+    L = ["/- GENERATED by gen/jstring.py from androguard/decompiler/writer.py string() — do not edit.",
+         "   (emitted only after the source was accepted as the modelled per-character escaper, see gen/jstring.py) -/",
+         "namespace AgVerif.Gen.JString", ""]
+    for k, v in PINNED.items():
+        ty = "List Nat" if isinstance(v, list) else "Nat"
+        val = "[" + ", ".join(map(str, v)) + "]" if isinstance(v, list) else str(v)
+        L.append(f"def {k} : {ty} := {val}")
+    L += ["", "end AgVerif.Gen.JString"]
     return {"JString": "\n".join(L) + "\n"}
